@@ -104,8 +104,8 @@ func checkC19(c *c19Case) (msg string, nontrivial bool, labels []string) {
 	}
 	mutators := 0
 	for _, s := range c.Stmts {
-		if s != nil && (s.IsAggregate() || len(s.Defs()) > 0) {
-			mutators++
+		if s == nil || s.IsAggregate() || len(s.Defs()) > 0 {
+			mutators++ // (nil: a raw-text aggregate statement)
 		}
 	}
 	nontrivial = n >= 2 && mutators >= 2
@@ -177,10 +177,27 @@ func TestC19(t *testing.T) {
 				for i := range st.Order {
 					st.Order[i].Name = rapid.SampledFrom([]string{"key", "value"}).Draw(rt, "shortFormOrder")
 				}
+			case 6:
+				// the constant parameter of quantile / group_concat given
+				// through the names of other fields: evaluated when the plan is
+				// built, for every statement on its own
+				var q string
+				if rapid.Bool().Draw(rt, "namedSeparator") {
+					sep := rapid.SampledFrom([]string{"-", "+", "/", ";", "::", ""}).Draw(rt, "separator")
+					q = fmt.Sprintf("select '%s' as s0, s0 + '' as s1, s1 + '' as s2, group_concat(key, s2) where key >= '' group by s0, s1, s2", sep)
+				} else {
+					pc := rapid.SampledFrom([]string{"0.1", "0.25", "0.5", "0.75", "0.9", "1.0"}).Draw(rt, "percent")
+					q = fmt.Sprintf("select %s as s0, s0 * 1.0 as s1, s1 + 0.0 as s2, quantile(strlen(key), s2) where key >= '' group by s0, s1, s2", pc)
+				}
+				c.Stmts = append(c.Stmts, nil)
+				c.Queries = append(c.Queries, q)
+				c.Modes = append(c.Modes, rapid.SampledFrom([]string{"row", "batch"}).Draw(rt, "mode"))
+				c.Writers = append(c.Writers, false)
+				continue
 			default:
 				st = lib.GenSelect(rt, kind, pairs, lib.SelOpts{Aliases: true, Aggregate: 1, Order: true, Limit: true, Exotic: true})
 			}
-			if i > 0 && rapid.IntRange(0, 3).Draw(rt, "sameAsPrevious") == 0 {
+			if i > 0 && c.Stmts[i-1] != nil && rapid.IntRange(0, 3).Draw(rt, "sameAsPrevious") == 0 {
 				st = c.Stmts[i-1].Clone() // the same statement text on two goroutines
 			}
 			// value-keyed state (e.g. a cache of compiled patterns) is only
